@@ -427,9 +427,13 @@ def check_run(st, program, stream_ids, call_too=True, built=None):
          'records': snaps, 'got': got, 'error': err,
          'expected': exp.outputs, 'reference_error': exp.error}
 
-  def viol(what, extra=None):
-    label = name_run_difference(program, [ref.snapshot(s) for s in snaps],
-                                got, err)
+  def viol(what, extra=None, output_differs=True):
+    # only a difference in outputs / errors can be due to a routing deviation
+    if output_differs:
+      label = name_run_difference(program, [ref.snapshot(s) for s in snaps],
+                                  got, err)
+    else:
+      label = 'ops:' + '+'.join(sorted({o['kind'] for o in program}))
     st.violation(f'C08:run:{what}:{label}', dict(det, **(extra or {})),
                  replay=replay)
 
@@ -444,7 +448,8 @@ def check_run(st, program, stream_ids, call_too=True, built=None):
       bad = [p for g, e in zip(got, exp.outputs)
              for p in ref.sharing_violations(g, e, in_ids, path=('out',))]
       if bad:
-        viol('untouched-input-subtree-copied', {'at': [repr(p) for p in bad]})
+        viol('untouched-input-subtree-copied', {'at': [repr(p) for p in bad]},
+             output_differs=False)
     # sinks: every record once, in order, then closed exactly once
     if err is None:
       gc.collect() if any(s.closed != 1 for s in sinks.values()) else None
@@ -454,9 +459,13 @@ def check_run(st, program, stream_ids, call_too=True, built=None):
             ref.same(list(a[0]), list(b[0])) and ref.same(a[1], b[1])
             for a, b in zip(s.writes, want.writes)):
           viol('sink-saw-other-records',
-               {'sink_op': i, 'sink_saw': s.writes, 'sink_expected': want.writes})
+               {'sink_op': i, 'sink_saw': s.writes,
+                'sink_expected': want.writes},
+               output_differs=len(got_c) != len(exp.outputs) or not all(
+                   ref.same(a, b) for a, b in zip(got_c, exp.outputs)))
         if s.closed != 1:
-          viol('sink-not-closed-once', {'sink_op': i, 'closed': s.closed})
+          viol('sink-not-closed-once', {'sink_op': i, 'closed': s.closed},
+               output_differs=False)
   else:
     if err is None:
       viol('value-where-reference-says-error')
@@ -464,7 +473,8 @@ def check_run(st, program, stream_ids, call_too=True, built=None):
         ref.same(a, b) for a, b in zip(got_c, exp.outputs))):
       viol('wrong-output-before-error')
   if not all(ref.same(r, s) for r, s in zip(records, snaps)):
-    viol('mutates-caller-input', {'records_after': records})
+    viol('mutates-caller-input', {'records_after': records},
+         output_differs=False)
   # the single-record call interface
   if (call_too and len(stream_ids) == 1 and exp.error is None and
       len(exp.outputs) == 1 and err is None):
